@@ -44,11 +44,21 @@ pub struct Sel {
     /// Literal ack IDs appended (unknown / malformed ones).
     #[serde(default, skip_serializing_if = "Vec::is_empty")]
     pub extra: Vec<String>,
+    /// Number of well-formed but unknown filler IDs appended after everything else (large batches).
+    #[serde(default, skip_serializing_if = "is_zero")]
+    pub filler: u32,
+    /// Insert one malformed ID at this position of the final list (clamped to its length).
+    #[serde(default, skip_serializing_if = "Option::is_none")]
+    pub bad_at: Option<u32>,
+}
+
+fn is_zero(v: &u32) -> bool {
+    *v == 0
 }
 
 impl Sel {
     pub fn none() -> Self {
-        Sel { mine: false, pick: Pick::None, extra: vec![] }
+        Sel { mine: false, pick: Pick::None, extra: vec![], filler: 0, bad_at: None }
     }
     pub fn is_none(&self) -> bool {
         self.pick == Pick::None && self.extra.is_empty()
@@ -133,6 +143,9 @@ pub enum Op {
         /// Extra deadline entries without ack id (unequal lists).
         #[serde(default)]
         extra_secs: Vec<i32>,
+        /// Per-ID seconds, cycled (mixes nacks and extensions in one frame); empty = modack_secs for all.
+        #[serde(default)]
+        secs_pattern: Vec<i32>,
     },
     /// Half-close: end the request stream, keep reading responses.
     StreamCloseReq { slot: u32 },
